@@ -166,10 +166,16 @@ def run_l1(pid, tier, seed):
         a2 = pool.map_async(_edge_worker, ejobs)
         rjobs = [(150 if tier == "quick" else 4000, seed * 577 + k) for k in range(2 if tier == "quick" else 8)] if pid == "C04" else []
         a3 = pool.map_async(_filter_real_worker, rjobs)
+        # C01 on conveyor edges inside factories (the edge class's own store): never more items on the belt than its capacity
+        a4 = pool.map_async(_belt_factory_worker, [(pid, (160 if tier == "quick" else 4800) // 4, seed * 739 + k) for k in range(4)] if pid == "C01" else [])
         outs = a1.get() + a2.get() + a3.get()
+        couts = a4.get()
     res = dict(evaluations=0, distinct_nontrivial=0, samples=[], traces=0, disagreements=[], violations=[], known=[],
                distribution={})
     tags, ops, errs = collections.Counter(), collections.Counter(), collections.Counter()
+    for o in couts:
+        res["evaluations"] += o["evals"]
+        res["violations"] += o["viol"]
     for o in outs:
         res["evaluations"] += o["evals"]
         res["traces"] += o["evals"]
@@ -310,6 +316,20 @@ def _c11_worker(args):
     return out
 
 
+def _buffer_real_worker(args):
+    """the Buffer edge under decimal delays (implementation only, see tbuffer.run_real)"""
+    n, seed = args
+    rng = random.Random(seed)
+    out = dict(evals=0, viol=[])
+    for _ in range(n):
+        case, msg = tbuffer.run_real(rng)
+        out["evals"] += 1
+        if msg:
+            out["viol"].append(dict(**{"class": "tbuffer-real"}, message="[buffer/decimal-delays] " + msg, case=case))
+    out["viol"] = out["viol"][:2]
+    return out
+
+
 def run_c11(pid, tier, seed):
     n = 1500 if tier == "quick" else 120000
     shards = 4 if tier == "quick" else 16
@@ -320,8 +340,12 @@ def run_c11(pid, tier, seed):
     with multiprocessing.Pool(min(16, 2 * shards)) as pool:
         a1 = pool.map_async(_c11_worker, jobs)
         a2 = pool.map_async(_c14_worker, fjobs)
-        outs, fouts = a1.get(), a2.get()
+        a3 = pool.map_async(_buffer_real_worker, [((400 if tier == "quick" else 16000) // 4, seed * 641 + k) for k in range(4)])
+        outs, fouts, routs = a1.get(), a2.get(), a3.get()
     res = dict(evaluations=0, distinct_nontrivial=0, samples=[], traces=0, disagreements=[], violations=[], known=[])
+    for o in routs:
+        res["evaluations"] += o["evals"]
+        res["violations"] += o["viol"]
     tags, ops = collections.Counter(), collections.Counter()
     for o in outs + fouts:
         res["evaluations"] += o["evals"]; res["traces"] += o["evals"]; res["distinct_nontrivial"] += o["sigs"]
@@ -339,7 +363,8 @@ def run_c11(pid, tier, seed):
                    "distinct (capacity, mode, delay source, situations reached, op-kind sequence)")
     res["distribution"] = dict(histories_reaching=dict(tags), micro_ops=dict(ops))
     res["distribution"]["fleet_histories_reaching"] = res.pop("fleet_tags")
-    res["rule"] += "; plus histories on the real Fleet edge with the same probes (harness/tfleet.py)"
+    res["rule"] += ("; plus histories on the real Fleet edge with the same probes (harness/tfleet.py); plus the Buffer edge under decimal "
+                    "delays (0.125, 1/3, 1.005, ...; implementation only): not available before put time + delay, available from then on")
     res["domain"] = "Buffer edge over BufferStore and Fleet edge over FleetStore"
     return res
 
